@@ -1,12 +1,136 @@
 import GrinVerif.Drv.Common
-/-! Driver glue for the `pool` domain (line protocol handler). -/
+import GrinVerif.Model.Pool
+/-! Driver glue for the `pool` domain (C14): the harness describes outputs, transactions, the
+head state and every pool operation; the model recomputes verdicts and pool contents, and
+evaluates the property's specification (`jointlyValidB`, `mineVerdict`) on its own state. -/
 namespace GV.Drv.PoolD
-open GV GV.Drv
+open GV GV.Drv GV.Pool GV.Chain
 
 structure St where
-  dummy : Unit := ()
+  ctx : Ctx := {}
+  pool : TxPool := {}
+  txs : List (Nat × Tx) := []
 
-def handle (st : St) (_args : List String) (_impl : String) : St × Verdict :=
-  (st, .unknown)
+def stripPfx (s : String) (n : Nat) : String := (s.drop n).toString
+
+/-- `o12` / `t3` / `k7` → number -/
+def idOf (s : String) : Option Nat := (stripPfx s 1).toNat?
+
+def kv (args : List String) (k : String) : Option String :=
+  (args.find? (·.startsWith (k ++ "="))).map (fun a => stripPfx a (k.length + 1))
+
+def kvNat (args : List String) (k : String) : Option Nat := (kv args k).bind String.toNat?
+
+def listItems (s : String) : List String :=
+  let inner := (s.drop 1).dropEnd 1 |>.toString
+  if inner.isEmpty then [] else inner.splitOn ","
+
+def parseKer (s : String) : Option PKer :=
+  match s.splitOn ":" with
+  | [k, "cb"] => (idOf k).map fun kid => { kid, ker := .cb }
+  | [k, "p", f, sh] => do
+    let kid ← idOf k; let f ← f.toNat?; let sh ← sh.toNat?
+    pure { kid, ker := .plain f, shift := sh }
+  | [k, "hl", f, sh, l] => do
+    let kid ← idOf k; let f ← f.toNat?; let sh ← sh.toNat?; let l ← l.toNat?
+    pure { kid, ker := .hl f l, shift := sh }
+  | [k, "nrd", f, sh, r, ex] => do
+    let kid ← idOf k; let f ← f.toNat?; let sh ← sh.toNat?; let r ← r.toNat?
+    pure { kid, ker := .nrd f r ex, shift := sh }
+  | _ => none
+
+def parseUtxo (s : String) : Option (Nat × Nat × Bool) :=
+  match s.splitOn ":" with
+  | [o, h, cb] => do let o ← idOf o; let h ← h.toNat?; pure (o, h, cb == "1")
+  | _ => none
+
+def parseSrc (s : String) : Option Src :=
+  match s with
+  | "P" => some .pushApi | "B" => some .broadcast | "F" => some .fluff
+  | "E" => some .embargoExpired | "D" => some .deaggregate | _ => none
+
+def srcLetter : Src → String
+  | .pushApi => "P" | .broadcast => "B" | .fluff => "F" | .embargoExpired => "E" | .deaggregate => "D"
+
+def sortNat (l : List Nat) : List Nat := (l.toArray.qsort (· < ·)).toList
+
+def showIds (pfx : String) (l : List Nat) : String :=
+  ".".intercalate ((sortNat l).map fun i => s!"{pfx}{i}")
+
+def txSig (t : Tx) : String :=
+  s!"{showIds "k" (t.kers.map (·.kid))}/{showIds "o" t.ins}/{showIds "o" t.outs}"
+
+def entrySig (e : Entry) : String := s!"{txSig e.tx}:{srcLetter e.src}"
+
+def showList (l : List String) : String := "[" ++ ",".intercalate l ++ "]"
+
+def okBad (b : Bool) : String := if b then "ok" else "bad"
+
+def showObs (st : St) : String :=
+  let c := st.ctx
+  let u := utxoIds c
+  let tp := st.pool.txpool.txs
+  let jv := jointlyValidB c.outs u tp
+  let jvs := jointlyValidB c.outs u (st.pool.stempool.txs ++ tp)
+  let mine := match st.pool.prepareMineable c with
+    | .error e => s!"err:{e}"
+    | .ok txs => s!"{showList (txs.map txSig)}:{if mineVerdict c txs then "ok" else "rejected"}"
+  s!"tx={showList (st.pool.txpool.map entrySig)} stem={showList (st.pool.stempool.map entrySig)} cache={showList (st.pool.cache.map entrySig)} jv={okBad jv} jvs={okBad jvs} mine={mine}"
+
+/-- The property fixes refusal of low-fee / over-weight / standalone-invalid transactions: if the
+model refuses for one of those reasons and the implementation admits, the line is a failing
+input. Everything else (error class, acceptance the property does not prescribe) is internal. -/
+def cmpSubmit (model impl : String) : Verdict :=
+  if model = impl then .ok
+  else if impl = "ok" ∧ (model = "err:LowFee" ∨ model.startsWith "err:InvalidTx") then .fail model
+  else .diff model
+
+def handle (st : St) (args : List String) (impl : String) : St × Verdict :=
+  match args with
+  | "reset" :: _ => ({}, .ok)
+  | "cfg" :: rest =>
+    match kvNat rest "max_pool", kvNat rest "max_stem", kvNat rest "mine_w", kvNat rest "fee_base",
+          kvNat rest "max_tx_w", kvNat rest "max_block_w", kvNat rest "maturity" with
+    | some maxPool, some maxStem, some mineW, some feeBase, some maxTxW, some maxBlockW, some maturity =>
+      ({ st with ctx := { st.ctx with cfg := { maxPool, maxStem, mineW, feeBase, maxTxW, maxBlockW, maturity } } }, .ok)
+    | _, _, _, _, _, _, _ => (st, .unknown)
+  | "out" :: o :: rest =>
+    match idOf o, kv rest "cb", kvNat rest "v" with
+    | some id, some cb, some v =>
+      ({ st with ctx := { st.ctx with outs := st.ctx.outs ++ [{ id, cb := cb == "1", v }] } }, .ok)
+    | _, _, _ => (st, .unknown)
+  | "head" :: _ :: rest =>
+    match kvNat rest "h", kvNat rest "ver", (kv rest "utxo").bind (fun s => (listItems s).mapM parseUtxo) with
+    | some h, some ver, some utxo =>
+      ({ st with ctx := { st.ctx with head := { utxo, nrd := [], height := h }, ver } }, .ok)
+    | _, _, _ => (st, .unknown)
+  | "tx" :: t :: rest =>
+    match idOf t, (kv rest "ins").bind (fun s => (listItems s).mapM idOf),
+          (kv rest "outs").bind (fun s => (listItems s).mapM idOf),
+          (kv rest "kers").bind (fun s => (listItems s).mapM parseKer), kv rest "tags" with
+    | some id, some ins, some outs, some kers, some tags =>
+      ({ st with txs := (id, { ins, outs, kers, tags := listItems tags }) :: st.txs }, .ok)
+    | _, _, _, _, _ => (st, .unknown)
+  | "submit" :: t :: rest =>
+    match (idOf t).bind (fun i => st.txs.find? (·.1 == i)), (kv rest "src").bind parseSrc, kv rest "stem", kv rest "stemok" with
+    | some (_, tx), some src, some stem, some stemOk =>
+      let (p, r) := st.pool.addToPool st.ctx src tx (stem == "1") (stemOk == "1")
+      ({ st with pool := p }, cmpSubmit (showRes r) impl)
+    | _, _, _, _ => (st, .unknown)
+  | ["obs"] => (st, cmpModel (showObs st) impl)
+  | "reconcile_block" :: _ :: rest =>
+    match (kv rest "ins").bind (fun s => (listItems s).mapM idOf), (kv rest "kers").bind (fun s => (listItems s).mapM idOf) with
+    | some ins, some kers =>
+      let (p, r) := st.pool.reconcileBlock st.ctx ins kers
+      ({ st with pool := p }, cmpModel (showRes r) impl)
+    | _, _ => (st, .unknown)
+  | ["reconcile_reorg_cache", _] =>
+    ({ st with pool := st.pool.reconcileReorgCache st.ctx }, cmpModel "ok" impl)
+  | ["evict"] => ({ st with pool := st.pool.evictFromTxpool st.ctx }, cmpModel "ok" impl)
+  | ["truncate_cache", n] =>
+    match n.toNat? with
+    | some n => ({ st with pool := st.pool.truncateCache n }, cmpModel "ok" impl)
+    | none => (st, .unknown)
+  | _ => (st, .unknown)
 
 end GV.Drv.PoolD
